@@ -36,21 +36,20 @@ def runs(tier):
         z2, zp = unit_name(ct, 0), unit_name(ct, 1)
 
         def add(u, args, cores=1, timeout=None):
-            r = {"unit": u, "args": [str(a) for a in args] + ["--workers", str(cores)], "cores": cores}
-            if timeout:
-                r["timeout"] = timeout
+            r = {"unit": u, "args": [str(a) for a in args] + ["--workers", str(cores)], "cores": cores,
+                 "timeout": timeout or 900}
             rs.append(r)
         if tier == "quick":
             if heap:
                 # lazy sums: the reachable heap layouts only close on the smallest universe
                 for fam in ("noswap", ".swaps"):
-                    add(z2, ["--P", 2, "--R", 2, "--C", 2, "--only", fam, "--budget", 110], 2)
-                    add(zp, ["--P", 3, "--R", 2, "--C", 2, "--only", fam, "--depth", 3, "--budget", 110])
+                    add(z2, ["--P", 2, "--R", 2, "--C", 2, "--only", fam, "--budget", 500], 2)
+                    add(zp, ["--P", 3, "--R", 2, "--C", 2, "--only", fam, "--depth", 3, "--budget", 500])
             else:
                 for fam in FAMILIES:
                     sw = fam.endswith(".swaps")
-                    add(z2, ["--P", 2, "--R", 2 if sw else 3, "--C", 2, "--only", fam, "--budget", 110])
-                    add(zp, ["--P", 3, "--R", 2, "--C", 2, "--only", fam, "--budget", 110] + (["--depth", 3] if sw else []))
+                    add(z2, ["--P", 2, "--R", 2 if sw else 3, "--C", 2, "--only", fam, "--budget", 500])
+                    add(zp, ["--P", 3, "--R", 2, "--C", 2, "--only", fam, "--budget", 500] + (["--depth", 3] if sw else []))
         else:
             if heap:
                 for fam in ("noswap", ".swaps"):
@@ -79,7 +78,7 @@ def C09():
         "technique": ("explicit-state BFS (with closure) of operation histories on the real Gudhi::persistence_matrix::Matrix in its base and "
                       "column-compressed flavours, one fresh matrix per history, every read interface compared with a dense reference "
                       "matrix (plus the partition of column indices for the compressed variant) after every transition"),
-        "level_text": ("for each of the 410 compilable option sets (9 column types x {Z_2, Z_p} x {no row access, 4 row-access kinds} x "
+        "level_text": ("for each of the 408 compilable option sets (9 column types x {Z_2, Z_p} x {no row access, 4 row-access kinds} x "
                        "{vector, map column container} x {swaps off, on}, plus column compression x 5 row kinds; heap has neither rows nor "
                        "compression) every finite history over the stated universe is covered by a fixpoint of the reachable canonical-state "
                        "set (model state + complete column internals + lazy swap maps + row containers), or, where stated, every history up "
